@@ -1,7 +1,10 @@
-(* Proofs/DequeAbaDefs.v — the concurrent invariant of the lock-free deque under the guard
-   [aba = false] (no link CAS has hit a freed / re-allocated node; nodes MAY be recycled): definitions and basic lemmas (the step proof is in Proofs/DequeAbaProofs.v; same structure as Proofs/DequeConc*.v, with
-   "allocated and not freed" = odd epoch instead of epoch 1 and the link-tag argument made
-   per incarnation of the node).
+(* Proofs/DequeAbaDefs.v — the concurrent invariant of the REPAIRED lock-free deque (link tags continue
+   across node reuse; nodes are recycled without restriction; NO guard): definitions (the step proof is
+   in Proofs/DequeAbaProofs.v; the files keep their names from the previous round, in which the same
+   invariant was proved under the guard [aba = false] — the guard is now a theorem, [aba_step]).
+   "Allocated and not freed" = odd epoch; a thread before its link CAS knows
+   "(snapshot current and link = expected) or tag(expected) < tag(link)", the second disjunct being
+   stable for ever because a link's tag never decreases over the lifetime of its address.
 
    [Core g ls c pend] relates a state of Model/Deque.v to
      c    : the abstract chain, the addresses of the nodes of the deque from left to right, and
